@@ -37,7 +37,7 @@ def _stochastic(draw, n):
 
 @st.composite
 def meas_circuit_recipes(draw, max_w=4, max_ops=10, qudits=False, clifford=False, channels=False, max_branches=64,
-                         conds=True, confusion=True, resets=True, qkinds=None):
+                         conds=True, confusion=True, resets=True, qkinds=None, pauli_meas=True):
     r = draw(GC.wires(1, max_w, qudits))
     if qkinds:
         r["qkind"] = draw(st.sampled_from(qkinds))
@@ -52,7 +52,20 @@ def meas_circuit_recipes(draw, max_w=4, max_ops=10, qudits=False, clifford=False
     else:
         pred = lambda f: f.unitary and not f.qudit and "zeroq" not in f.tags
     for i in range(nops):
-        kind = draw(st.sampled_from(["g", "g", "g", "m", "m", "r", "cg", "cg", "cg", "ch"]))
+        kind = draw(st.sampled_from(["g", "g", "g", "m", "m", "r", "cg", "cg", "cg", "ch", "pm"]))
+        if kind == "pm":
+            qw = [j for j, d in enumerate(dims) if d == 2]
+            if not pauli_meas or not qw or budget < 2:
+                kind = "g"
+            else:
+                k = draw(st.integers(1, min(3, len(qw))))
+                w = list(draw(st.permutations(qw)))[:k]
+                budget //= 2
+                key = draw(st.sampled_from(["p", "r"]))
+                measured.setdefault(key, []).append((2,))
+                ops.append({"k": "pm", "key": key, "w": w, "ps": draw(st.lists(st.sampled_from("XYZ"), min_size=k, max_size=k)),
+                            "sign": draw(st.sampled_from([1, 1, -1]))})
+                continue
         if kind == "ch" and not channels:
             kind = "g"
         if kind == "r" and not resets:
@@ -259,6 +272,13 @@ def build(recipe, order=None, strategy=None):
         elif k == "r":
             _app(cirq.ResetChannel(dimension=recipe["dims"][o["w"][0]]).on(*wq))
             ir.append({"t": "reset", "ax": ax})
+        elif k == "pm":
+            from vf.ref import linalg as _L
+
+            dps = cirq.DensePauliString("".join(o["ps"]), coefficient=o["sign"])
+            _app(cirq.PauliMeasurementGate(dps, key=o["key"]).on(*wq))
+            ir.append({"t": "pm", "key": o["key"], "ax": ax, "obs": _L.pauli_string_matrix(o["ps"], o["sign"])})
+            key_dims[o["key"]] = (2,)
         elif k == "m":
             kw = {}
             if o.get("inv"):
@@ -279,7 +299,7 @@ def is_terminal_only(recipe):
     for o in recipe["ops"]:
         if o["k"] == "m":
             seen_m.update(o["w"])
-        elif o["k"] in ("cg", "r"):
+        elif o["k"] in ("cg", "r", "pm"):
             return False
         elif any(w in seen_m for w in o["w"]):
             return False
